@@ -106,6 +106,10 @@ class SizeConstraint(Constraint):
             self.size_max is not None
         ), "Cannot assert the end of a constraint before having initialized it."
 
+        if self.is_obsolete:
+            # already finalized: the region was overrun, reported and skipped to its end
+            return
+
         # finalize self and remove it from constraint list
         self.is_obsolete = True
 
@@ -118,7 +122,12 @@ class SizeConstraint(Constraint):
             raise error
         yield WarningEvent(error=error)
 
-        yield from consume_bytes(self.size_max - self.size_already)
+        # skip the rest of the region; the skipped bytes count for the enclosing regions
+        padding = self.size_max - self.size_already
+        for constraint in all_size_constraints:
+            if constraint is not self and not constraint.is_obsolete:
+                constraint.size_already += padding
+        yield from consume_bytes(padding)
 
     def __repr__(self):
         return f"{type(self).__name__}({self.constraint_path}: {self.size_already}/{self.size_max})"
@@ -129,7 +138,33 @@ class SizeConstraintList(list[SizeConstraint]):
         super().__init__(*args, **kwargs)
 
     def bytes_parsed(self, path, size, anticipate_only=False):
-        # TODO always in order from deepest to highest
+        # constraints are in order from outermost to innermost region
+        for constraint in self.copy():
+            if constraint.is_obsolete:
+                self.remove(constraint)
+
+        # look ahead: is any region violated? Check all of them before counting anything.
+        for index, constraint in enumerate(self):
+            if (
+                constraint.size_max is None
+                or constraint.size_already + size <= constraint.size_max
+            ):
+                continue
+            if not anticipate_only:
+                # The rest of the violated region is skipped (see SizeConstraint.bytes_parsed). The skipped bytes count
+                # for the enclosing regions, the regions nested in the violated one are abandoned with it.
+                skipped = max(0, constraint.size_max - constraint.size_already)
+                for outer in self[:index]:
+                    outer.size_already += skipped
+                for inner in self[index + 1 :]:
+                    inner.is_obsolete = True
+            # raises
+            yield from constraint.bytes_parsed(
+                path,
+                size,
+                anticipate_only=anticipate_only,
+            )
+
         for constraint in self.copy():
             try:
                 yield from constraint.bytes_parsed(
